@@ -223,6 +223,23 @@ def _resort_in_transform(chk, tr: FuncInfo):
                           ".isel(mode=idx_modes_sorted.values).assign_coords(mode=<old mode labels>); anything else applies another permutation")
     chk.check(n >= 1, "SORT.state.transform.exists", tr, tr.node, construct=f"{tr.qualname}: re-sort of projections",
               why="transform never re-sorts its projections: after compute() the mode order of transform differs from scores()")
+    # every result (each field of a cross rotator) passes through that re-sort
+    tf = FuncFacts.of(tr)
+    sinks = []
+    for x in walk_no_nested(tr.node):
+        if isinstance(x, ast.Call) and isinstance(x.func, ast.Attribute) and x.func.attr == "append" and x.args and isinstance(x.func.value, ast.Name) \
+                and any(p.atom.kind == "const" and p.atom.name == "[]" for p in tf.paths(x.func.value, spine_only=True)):
+            sinks.append((x.args[0], x))
+    if not sinks:
+        sinks = [(r.value, r) for r in walk_no_nested(tr.node) if isinstance(r, ast.Return) and r.value is not None]
+    for e, node in sinks:
+        ps = tf.paths(e, spine_only=True, follow=True)
+        if not any(_is_rot_source(p) or p.has_op("arg", "xr.dot") for p in ps):
+            continue
+        srt = any(o.kind == "method" and o.name == "isel" and any(reads_container(q, "idx_modes_sorted") for q in tf.eval_in(o.frame, call_kwargs(o.node).get("mode"), spine_only=True))
+                  for p in ps for o in p.ops if o.kind == "method" and o.name == "isel" and call_kwargs(o.node).get("mode") is not None)
+        chk.check(srt, "SORT.state.transform.each", tr, node, construct=f"{tr.qualname}: result {norm(e)[:40]} is re-sorted",
+                  why="this result of transform does not pass through the re-sort by idx_modes_sorted: after compute() its modes are in another order than scores()")
 
 
 def _pseudo_norm(chk, fit: FuncInfo, cname: str):
